@@ -217,6 +217,85 @@ fn run_overlap(cap: usize, rng: &mut rand::rngs::StdRng) -> Vec<Value> {
     ev
 }
 
+/// Real-parallel hammer: several pushers and a consumer run freely on a small reservoir. Schedule-independent facts only:
+/// no push panics, and every overflowing push drew from exactly the range its own claimed index prescribes (the pair is
+/// read from the thread's own hook events `res.claim.post [idx, cap]` / `res.rand.post [range]`).
+fn run_hammer(cap: usize, rng: &mut rand::rngs::StdRng) -> Value {
+    use std::cell::RefCell;
+    use std::sync::atomic::{AtomicBool, AtomicU64, Ordering::SeqCst};
+    let res = Arc::new(AtomicSamplingReservoir::new(cap));
+    let stop = Arc::new(AtomicBool::new(false));
+    let drains = Arc::new(AtomicU64::new(0));
+    let np = 3 + rng.random_range(0..3usize);
+    let mut hs = vec![];
+    for p in 0..np {
+        let (r, stop) = (res.clone(), stop.clone());
+        hs.push(std::thread::spawn(move || {
+            // (idx, range) pairs of this thread: a sample of the good ones, all the bad ones (bounded)
+            let state: std::rc::Rc<RefCell<(i64, Vec<[i64; 2]>, Vec<[i64; 2]>, u64)>> = std::rc::Rc::new(RefCell::new((-1, vec![], vec![], 0)));
+            let st2 = state.clone();
+            metrics::verif::install(Box::new(move |site, a| {
+                let mut g = st2.borrow_mut();
+                if site == "res.claim.post" {
+                    g.0 = a[0];
+                } else if site == "res.rand.post" {
+                    g.3 += 1;
+                    let pair = [g.0, a[0]];
+                    if pair[1] != pair[0] + 1 {
+                        if g.2.len() < 20 {
+                            g.2.push(pair);
+                        }
+                    } else if g.1.len() < 10 && g.3 % 97 == 1 {
+                        g.1.push(pair);
+                    }
+                }
+            }));
+            let (mut pushes, mut panics) = (0u64, 0u64);
+            while !stop.load(SeqCst) {
+                let r2 = r.clone();
+                let ok = std::panic::catch_unwind(std::panic::AssertUnwindSafe(move || {
+                    for i in 0..256 {
+                        r2.push((p * 1000 + i) as f64);
+                    }
+                }));
+                pushes += 256;
+                if ok.is_err() {
+                    panics += 1;
+                }
+            }
+            metrics::verif::clear();
+            let g = state.borrow();
+            (pushes, panics, g.1.clone(), g.2.clone(), g.3)
+        }));
+    }
+    let t0 = std::time::Instant::now();
+    let prev = std::panic::take_hook();
+    std::panic::set_hook(Box::new(|_| {}));
+    while t0.elapsed() < std::time::Duration::from_millis(250) {
+        res.consume(|d| {
+            let _ = d.count();
+        });
+        drains.fetch_add(1, SeqCst);
+    }
+    stop.store(true, SeqCst);
+    let (mut pushes, mut panics, mut good, mut bad, mut draws) = (0u64, 0u64, vec![], vec![], 0u64);
+    for h in hs {
+        if let Ok((a, b, c, d, e)) = h.join() {
+            pushes += a;
+            panics += b;
+            good.extend(c);
+            bad.extend(d);
+            draws += e;
+        } else {
+            panics += 1;
+        }
+    }
+    std::panic::set_hook(prev);
+    good.truncate(40);
+    bad.truncate(40);
+    json!({"p": 0, "ev": "hammer", "a": [cap, panics, (pushes / 1000) as i64, drains.load(SeqCst) as i64, (draws / 1000) as i64], "good": good, "bad": bad})
+}
+
 /// single-threaded program: pushes and consumes interleaved in program order (one logical process does both)
 fn run_seq(cap: usize, rng: &mut rand::rngs::StdRng) -> Vec<Value> {
     let res = Arc::new(AtomicSamplingReservoir::new(cap));
@@ -324,6 +403,20 @@ fn main() {
                 }
             }
             summary["runs"] = json!(runs);
+        }
+        "hammer" => {
+            let runs: usize = args.num("runs", 8);
+            let (mut draws, mut drains) = (0i64, 0i64);
+            for _ in 0..runs {
+                let e = run_hammer(cap, &mut rng);
+                w.put(&json!({"p": 0, "ev": "reset", "a": [cap]}));
+                draws += e["a"][4].as_i64().unwrap();
+                drains += e["a"][3].as_i64().unwrap();
+                w.put(&e);
+            }
+            summary["runs"] = json!(runs);
+            summary["kilo_draws"] = json!(draws);
+            summary["drains"] = json!(drains);
         }
         "stat" => {
             // retention frequency of each stream position, cap = 2, n = 5: informational only
